@@ -173,6 +173,7 @@ type srvState struct {
 type gateObs struct {
 	Overlaps    []string `json:"overlaps"`
 	AfterReturn []string `json:"after_return"`
+	AfterFinal  []string `json:"after_final"`
 	Held        bool     `json:"held"`
 	Met         bool     `json:"met"`
 }
